@@ -6,6 +6,7 @@ import (
 	"fmt"
 	"io"
 	"math/rand"
+	"os"
 	"strconv"
 	"sync"
 	"testing"
@@ -260,6 +261,9 @@ func prefixOnly(res *result, role string, ex msgfix.Expect, got [][]byte, rs msg
 var _ = codes.OK
 
 func runE2E(t *testing.T, r *vlib.Run, n int) {
+	if f := os.Getenv("VERIF_FAM"); f != "" && f != "e2e" { // debugging aid only
+		return
+	}
 	for i := 0; i < n; i++ {
 		if !r.Want("e2e", i) {
 			continue
